@@ -74,6 +74,19 @@ REGISTRY = {
         'assumptions': ['payload bytes are 0..255'],
         'trusted': ['modelled, not verified: bytes::Buf panic conditions; slice indexing; tokio task isolation of panics'],
     },
+    'C13': {
+        'rule': 'real Frame::try_from on all 256 type codes x 10 boundary lengths, every single-byte corruption (256 values x 10 offsets) of 4 valid headers, short/long buffers; real Stream::recv_packet::<P> for each of the 12 packet types over an in-memory reader followed by sentinel bytes (bytes consumed are observed): small domains exhaustively (all Engine state bytes, all Control kind x on bytes, all Motion tags, all straight-drive values (1/16 quick), all session flag bytes, all constraint/reference bytes), '
+                'per type structured cases (valid encodings, truncations, byte substitutions, trailing bytes, random payloads of boundary lengths incl. 1023..1025, declared lengths 0..64, every truncation and byte sweep of a valid encoding); kind-3 cases: reference encodings decoded by the real TryFrom, re-encoded by the real to_bytes and framed by the real send_packet; '
+                'results compared with the extracted model (decoded objects compared through their canonical encoding; rotation words and non-ASCII names excluded, see trusted base); non-trivial = accepted header / decoded packet / round-trip case; distinct by case text',
+        'exhaustive': {'quick': False, 'thorough': False},
+        'level_text': 'Theorems C13_header_canonical, C13_parser_exact (iff, for ALL byte lists), C13_types_distinct, C13_fixed_sizes, C13_roundtrip (ALL objects of all twelve types at word level, strings/change lists of any representable length), C13_recv_total (ANY type code, declared length and payload: value or error, never a panic) and C13_size_bound_partial are proved about the Gallina codec model; '
+                      'the unrestricted 1024-byte bound is refuted for Actor by C13_actor_size_refuted (known finding). The model is tied to the real encoders/decoders by differential execution.',
+        'level_note': 'float fields are opaque 32-bit words; the euler re-parameterisation of Target/Rotator/Actor rotations (nalgebra) and String::from_utf8_lossy / chars().take(64) on names are modelled environment: rotation words are compared by 2e-4 tolerance in the harness and non-ASCII names are not compared. Trusted: kernel, extraction, drv.ml, harness (incl. its reference encoder, itself checked against the model).',
+        'technique': 'Rocq proof (iff-characterisation of the header parser, per-type round-trip lemmas by induction on lists, never-panics walk of every decoder) + differential execution of the real codec',
+        'explanation': 'eight theorems in Properties/C13.v',
+        'assumptions': ['payload bytes are 0..255', 'names are compared only when ASCII; rotation angles within float tolerance and away from gimbal lock (|pitch| < 1.4 rad)'],
+        'trusted': ['modelled, not verified: bytes::Buf panic conditions, nalgebra euler conversions, UTF-8 lossy conversion, uuid::from_slice on 16 bytes'],
+    },
     'C07': {
         'level_text': 'Theorem C07 (and C07_envelope, C07_never_panics) proves the envelope for ALL idle<=max, ALL integer speeds and all 48 '
                       'state/age combinations about the Gallina model of Governor::next_state; the model is tied to the code by exhaustive '
